@@ -76,6 +76,13 @@ func main() {
 		runHistory(o, res, cases, w, ops, cfg, 0, -1, "corpus")
 	}
 
+	// corpus: one BIG block (more keys than LeveldbPermanent.batchlimit) merged, reopen, every key read back
+	for i, pc := range []int{0, 100} {
+		w, ops, cfg := chain.BigHistory(vh.NewRand(uint64(960+i)), true)
+		runHistory(o, res, cases, w, ops, cfg, pc, -10-i, "corpus-big")
+	}
+	res.Distribution["perm_batchlimit"] = chain.BatchLimit()
+
 	nchains := o.Pick(40, 1000)
 	for ci := 0; ci < nchains; ci++ {
 		cr := vh.NewRand(r.U64())
